@@ -148,6 +148,12 @@ func (s *Server) proxyHTTPRoute(c *gin.Context) {
 	}
 
 	s.httpProxy.ServeHTTP(c.Writer, c.Request, endpointID)
+
+	// This is the 'no route' handler, so if the response status is 404 and
+	// nothing has been written, Gin overwrites the content type and adds its
+	// default 'not found' body. Therefore write the header now so an upstream
+	// 404 response without a body is passed on unmodified.
+	c.Writer.WriteHeaderNow()
 }
 
 func (s *Server) proxyTCPRoute(c *gin.Context) {
